@@ -194,6 +194,24 @@ K2 = jnp.asarray(np.diff(np.eye(4), 2, axis=0).T @ np.diff(np.eye(4), 2, axis=0)
 def model_family(name, per_obs=True, flags="exclusive"):
     """Returns (model, recipe) where recipe: values -> list of leaves
     [{'name', 'v', 'has_var', 'observed', 'parameter'}], and the names of settable params."""
+    if name == "linreg_flag":
+        # a calculator with a literal Python `True` among its inputs
+        beta = lsl.param(jnp.array([0.2, 0.7], jnp.float32), lsl.Dist(tfd.Normal, loc=0.0, scale=5.0), name="beta")
+        mu = lsl.Var(lsl.Calc(lambda X, b, center: X @ b - jnp.where(center, jnp.mean(X @ b), 0.0), lsl.obs(X, name="X"), beta,
+                              center=True), name="mu")
+        y = lsl.obs(YD, lsl.Dist(tfd.Normal, loc=mu, scale=0.9), name="y")
+        for v in (beta, y):
+            v.dist_node.per_obs = per_obs
+        model = lsl.GraphBuilder().add(y).build_model()
+
+        def recipe(v):
+            m = X @ v["beta"]
+            return [
+                {"name": "beta", "v": _f(tfd.Normal(0.0, 5.0).log_prob(v["beta"])), "has_var": True, "observed": False, "parameter": True},
+                {"name": "y", "v": _f(tfd.Normal(m - jnp.mean(m), 0.9).log_prob(YD)), "has_var": True, "observed": True, "parameter": False},
+            ]
+        draws = {"beta": lambda r: jnp.asarray([r.uniform(-2, 2), r.uniform(-2, 2)], jnp.float32)}
+        return model, recipe, draws, {}
     if name in ("linreg", "linreg_user_ll", "linreg_both_flags", "linreg_noflags"):
         beta = lsl.param(jnp.array([0.2, 0.7], jnp.float32), lsl.Dist(tfd.Normal, loc=0.0, scale=5.0), name="beta")
         sigma = lsl.param(jnp.float32(0.9), lsl.Dist(tfd.InverseGamma, concentration=2.0, scale=1.5), name="sigma")
@@ -359,7 +377,7 @@ def model_family(name, per_obs=True, flags="exclusive"):
     raise KeyError(name)
 
 
-FAMILY = ["distreg", "auto_transformed", "linreg", "linreg_user_ll", "linreg_both_flags", "linreg_noflags", "transformed", "mvn_degen", "hier_vector"]
+FAMILY = ["distreg", "auto_transformed", "linreg_flag", "linreg", "linreg_user_ll", "linreg_both_flags", "linreg_noflags", "transformed", "mvn_degen", "hier_vector"]
 
 
 def numeric_trace(rng, name, nassign=3):
